@@ -81,6 +81,13 @@ out = V / "seeded" / f"{a.pid}-{slug}"
 out.mkdir(parents=True, exist_ok=True)
 shutil.copy(patch, out / "patch.diff")
 shutil.copy(demo, out / "demo.py")
+if (src / "NOTES.md").exists():
+    shutil.copy(src / "NOTES.md", out / "NOTES.md")  # the author's own account (covers both changes of the pair)
+for extra in src.glob("*.py"):
+    # helper modules the demonstration imports (harness, reference implementation): keep them next to it
+    if not re.fullmatch(r"demo\d+\.py", extra.name) and f"import {extra.stem}" in demo.read_text() or f"from {extra.stem}" in demo.read_text():
+        if not re.fullmatch(r"demo\d+\.py", extra.name):
+            shutil.copy(extra, out / extra.name)
 meta = {
     "property": a.pid,
     "origin": "independent sub-agent given only the property text and a scratch worktree",
